@@ -23,6 +23,10 @@ def finisher(rng, tag, kinds):
         return "D", "500", "~"
     if k == "panic":
         return "P", "500", "~"
+    if k == "resperr":
+        # respond() with a body source that fails after some bytes (undeclared length: chunked, so HTTP/1.1 without TE only)
+        body = body_bytes("e" + tag, rng.choice([0, 5, 3000, 20000]))
+        return "E" + hx(body), "200", hx(body)
     if k == "rawempty":
         return "Z", None, None
     if k == "rawpanic":
@@ -33,7 +37,7 @@ def finisher(rng, tag, kinds):
 
 
 ALL_KINDS = ["respond", "respond", "chunked", "drop", "panic", "raw", "rawx", "rawempty", "rawflush", "rawflush", "rawpanic", "rawflushfirst",
-             "rawvec", "rawvec"]
+             "rawvec", "rawvec", "resperr"]
 
 
 def build(rng, i, n, order, grace, kinds=ALL_KINDS, transport="u", tail=None):
@@ -58,6 +62,8 @@ def build(rng, i, n, order, grace, kinds=ALL_KINDS, transport="u", tail=None):
             r.expect = rng.choice(["100-continue", "100-Continue"])
         stream += r.render()
         fin, st, rb = finisher(rng, tag, kinds)
+        while fin[0] == "E" and (r.version != "1.1" or any(n == "TE" for n, _ in r.headers)):
+            fin, st, rb = finisher(rng, tag, kinds)          # (identity framing would need the whole body before the head)
         reads = rng.choice([[], [], [(None, 512)]])
         if r.expect and rng.chance(2, 3):
             reads = [(None, 512)]
@@ -70,8 +76,8 @@ def build(rng, i, n, order, grace, kinds=ALL_KINDS, transport="u", tail=None):
             continue          # the raw writer was dropped untouched: this request contributes no bytes
         ws.append(st)
         head = (m == "HEAD")
-        hd.append("1" if head and fin[0] in "RDP" else "0")
-        wrb.append("-" if (head and fin[0] in "RDP") else rb)
+        hd.append("1" if head and fin[0] in "RDPE" else "0")
+        wrb.append("-" if (head and fin[0] in "RDPE") else rb)
     # a refused head behind the pipelined requests: the connection thread answers it itself (400 / 417) and must
     # wait for its turn like everybody else
     if tail is not None:
